@@ -173,14 +173,35 @@ def strip_lean_comments(src):
     return src
 
 
-def source_audit():
-    """grep for constructs that would put something outside the kernel into the trusted base."""
+def import_closure(modules):
+    """Lean source files (of this project) transitively imported by the given modules."""
+    seen, todo = set(), list(modules)
+    while todo:
+        m = todo.pop()
+        if m in seen:
+            continue
+        path = os.path.join(LEAN, *m.split(".")) + ".lean"
+        if not os.path.exists(path):
+            continue
+        seen.add(m)
+        for ln in open(path):
+            mm = re.match(r"\s*(?:public\s+)?import\s+(.+)", ln)
+            if mm:
+                for name in mm.group(1).split():
+                    if name.startswith("Verif.") or name.startswith("Drv."):
+                        todo.append(name)
+    return sorted(seen)
+
+
+def source_audit(modules):
+    """grep the sources this property depends on (theorem modules, drivers and everything they import)
+    for constructs that would put something outside the kernel into the trusted base."""
     hits = []
-    for path in glob.glob(os.path.join(LEAN, "Verif", "**", "*.lean"), recursive=True) + \
-            glob.glob(os.path.join(LEAN, "Drv", "*.lean")):
+    for m in import_closure(modules):
+        path = os.path.join(LEAN, *m.split(".")) + ".lean"
         src = strip_lean_comments(open(path).read())
-        for m in FORBIDDEN.finditer(src):
-            hits.append(f"{os.path.relpath(path, LEAN)}: {m.group(0).strip()}")
+        for mt in FORBIDDEN.finditer(src):
+            hits.append(f"{os.path.relpath(path, LEAN)}: {mt.group(0).strip()}")
     return hits
 
 
@@ -345,7 +366,12 @@ def check_property(prop, tier, seed, replay=None):
     bad_axioms = {n: a for n, a in bad_axioms.items() if a}
     for n, a in bad_axioms.items():
         broken.append((f"axioms:{n}", " ".join(a)))
-    src_hits = source_audit()
+    drv_modules = []
+    for d in drivers:
+        for f in glob.glob(os.path.join(LEAN, 'Drv', '*.lean')):
+            if 'drv_' + os.path.basename(f)[:-5].lower() == d:
+                drv_modules.append('Drv.' + os.path.basename(f)[:-5])
+    src_hits = source_audit(theorem_modules + drv_modules)
     for h in src_hits:
         broken.append(("source-audit", h))
     expected = prop.get("min_theorems", 1)
@@ -642,6 +668,9 @@ def main(argv):
         return setup()
     if "--manifest" in args:
         return manifest()
+    if "--merge-known" in args:
+        merge_known()
+        return 0
     props = load_props()
     if "--all" in args:
         rc = 0
